@@ -12,11 +12,12 @@
 package simsched
 
 import (
+	"reflect"
 	"runtime"
 	"sync"
 )
 
-const MaxTasks = 64
+const MaxTasks = 264
 
 // ChangePoint lowers the running task's priority below all others when hit.
 type ChangePoint struct {
@@ -31,9 +32,9 @@ type ChangePoint struct {
 // Plan fully decides one interleaving.
 type Plan struct {
 	Strategy string        `json:"strategy"`
-	Prio     []int         `json:"prio"`              // initial priority per task (higher runs first)
-	Points   []ChangePoint `json:"points,omitempty"`  // change points
-	Quantum  uint64        `json:"quantum,omitempty"` // >0: additionally a change point every Quantum yields
+	Prio     []int         `json:"prio"`               // initial priority per task (higher runs first)
+	Points   []ChangePoint `json:"points,omitempty"`   // change points
+	Quantum  uint64        `json:"quantum,omitempty"`  // >0: additionally a change point every Quantum yields
 	DynPrio  []int         `json:"dyn_prio,omitempty"` // priorities of goroutines the library itself starts, in order of creation
 }
 
@@ -48,8 +49,14 @@ type Switch struct {
 var (
 	active   bool
 	counting bool // count per-(task,site) occurrences
-	ntasks   int
 	nsites   int
+	alive    [MaxTasks]bool // slot holds a registered goroutine
+	waiting  [MaxTasks]bool // last thing the task did was to fail a wait (lock, channel, WaitGroup)
+	idle     int            // consecutive failed re-checks by waiting tasks, no progress in between
+	quiet    bool           // every unfinished task waits and none can proceed
+	deadlock bool           // ... and a harness task is among them: it is made to panic
+	dynBase  = 8            // library-started goroutines use slots dynBase.., harness tasks 0..dynBase-1
+	hi       = 8            // slots [0,hi) are in use or were in use: bound of all scans
 	turn     int
 	ord      uint64
 	prio     [MaxTasks]int
@@ -72,7 +79,7 @@ var (
 	limit    uint64 // logical step bound of the run (0 = none)
 	dynPrio  []int  // priorities for library-started goroutines
 	dynNext  int
-	nTop     int // number of top-level (harness) tasks
+	nTop     int           // number of top-level (harness) tasks
 	onceTab  [64]onceState // no map: runtime map operations report to the race detector even from norace code
 	onceN    int
 )
@@ -82,15 +89,22 @@ type onceState struct {
 	running, done bool
 }
 
-// Setup prepares a run of n tasks over a site table of size ns.
+// Deadlock is the panic value raised in a harness task when every unfinished
+// task is waiting and none can proceed under this schedule.
+const Deadlock = "simsched: all tasks are waiting (deadlock under this schedule)"
+
+// Setup prepares a run of n tasks over a site table of size ns. Goroutines the
+// library started in an earlier run and that are still alive (a worker pool
+// parked on its job channel) stay registered and take part in this run too.
 //
 //go:norace
 func Setup(n, ns int, p *Plan, count bool, record int) {
-	if n > MaxTasks {
+	if n > dynBase {
 		panic("simsched: too many tasks")
 	}
-	ntasks, nsites = n, ns
+	nsites = ns
 	nTop = n
+	idle, quiet, deadlock = 0, false, false
 	dynPrio, dynNext = nil, 0
 	if p != nil {
 		dynPrio = p.DynPrio
@@ -121,7 +135,12 @@ func Setup(n, ns int, p *Plan, count bool, record int) {
 			trig[i][j] = 0
 			trigMore[i][j] = nil
 		}
-		done[i], inY[i] = false, false
+		if i < dynBase {
+			alive[i] = i < n
+			done[i], inY[i], waiting[i] = false, false, false
+		} else if alive[i] && done[i] {
+			alive[i] = false
+		}
 		prio[i] = 0
 	}
 	ordPts = ordPts[:0]
@@ -147,8 +166,22 @@ func Setup(n, ns int, p *Plan, count bool, record int) {
 		sortU64(ordPts)
 		quantum, qLeft = p.Quantum, p.Quantum
 	}
-	for i := 0; i < n; i++ {
-		if prio[i] < lowest {
+	hi = dynBase
+	for i := dynBase; i < MaxTasks; i++ {
+		if alive[i] {
+			hi = i + 1
+		}
+	}
+	for i, k := dynBase, 0; i < MaxTasks; i++ { // surviving library goroutines
+		if alive[i] {
+			if k < len(dynPrio) {
+				prio[i] = dynPrio[k]
+			}
+			k++
+		}
+	}
+	for i := 0; i < MaxTasks; i++ {
+		if alive[i] && prio[i] < lowest {
 			lowest = prio[i]
 		}
 	}
@@ -175,21 +208,58 @@ func sortU64(a []uint64) {
 	}
 }
 
-// pickNext returns the unfinished task of highest priority (ties: lowest id);
-// -1 if all are done.
+// pickNext returns the unfinished task of highest priority (ties: lowest id)
+// among those not known to be waiting; if all unfinished tasks are waiting,
+// they are given the turn in rotation so that each re-checks its condition.
+// -1 if no task is left.
 //
 //go:norace
 func pickNext() int {
 	best := -1
-	for i := 0; i < ntasks; i++ {
-		if done[i] {
+	for i := 0; i < hi; i++ {
+		if !alive[i] || done[i] || waiting[i] {
 			continue
 		}
 		if best < 0 || prio[i] > prio[best] {
 			best = i
 		}
 	}
-	return best
+	if best >= 0 {
+		return best
+	}
+	for d := 1; d <= hi; d++ {
+		i := (turn + d + hi) % hi
+		if turn < 0 {
+			i = d - 1
+		}
+		if alive[i] && !done[i] {
+			return i
+		}
+	}
+	return -1
+}
+
+//go:norace
+func unfinished() (n int, harness bool) {
+	for i := 0; i < hi; i++ {
+		if alive[i] && !done[i] {
+			n++
+			if i < dynBase {
+				harness = true
+			}
+		}
+	}
+	return
+}
+
+// progress: the running task did something; nobody is presumed stuck any more.
+//
+//go:norace
+func progress() {
+	idle = 0
+	if turn >= 0 {
+		waiting[turn] = false
+	}
 }
 
 // StepBound is the panic value raised in a task when the run exceeds its
@@ -253,6 +323,7 @@ func Y(site int) {
 	if limit > 0 && ord > limit {
 		panic(StepBound)
 	}
+	progress()
 	me := turn
 	c := counts[me][site] + 1
 	counts[me][site] = c
@@ -297,6 +368,11 @@ func Boundary() { Y(0) }
 //go:norace
 func Finish(id int) {
 	done[id] = true
+	waiting[id] = false
+	idle = 0
+	for i := 0; i < hi; i++ { // whoever waited may have waited for this
+		waiting[i] = false
+	}
 	turn = pickNext()
 }
 
@@ -315,8 +391,8 @@ func spinYield() {
 		runtime.Gosched()
 		return
 	}
-	// a task that cannot take a lock behaves like one that hit a change
-	// point: its priority drops below all others
+	// a task that cannot proceed behaves like one that hit a change point (its
+	// priority drops below all others) and is marked waiting
 	ord++
 	if limit > 0 && ord > limit {
 		panic(StepBound)
@@ -325,11 +401,53 @@ func spinYield() {
 	lowest--
 	prio[me] = lowest
 	nSpin++
-	handOff(me, 0)
+	waiting[me] = true
+	idle++
+	if n, harness := unfinished(); idle > n+1 {
+		// every unfinished task re-checked its condition and none could move
+		idle = 0
+		if harness {
+			deadlock = true
+			for i := 0; i < dynBase; i++ {
+				if alive[i] && !done[i] {
+					if i == me {
+						deadlock = false
+						waiting[me] = false
+						panic(Deadlock)
+					}
+					park(me, i)
+					break
+				}
+			}
+		} else {
+			// only library goroutines are left and all of them wait: the run is over
+			quiet = true
+			park(me, -1)
+		}
+	} else {
+		handOff(me, 0)
+	}
+	if deadlock && me < dynBase {
+		deadlock = false
+		waiting[me] = false
+		panic(Deadlock)
+	}
+}
+
+// park gives the turn to next and waits to get it back.
+//
+//go:norace
+func park(me, next int) {
+	inY[me] = true
+	turn = next
+	for turn != me {
+		runtime.Gosched()
+	}
+	inY[me] = false
 }
 
 //go:norace
-func spinDone() {}
+func spinDone() { progress() }
 
 // OnceDo replaces once.Do(f): while another task is inside f, callers yield
 // instead of blocking on the Once's internal mutex. The real Once still runs,
@@ -453,27 +571,27 @@ func SiteHits() []uint32 {
 //go:norace
 func newTask() int {
 	id := -1
-	for i := nTop; i < ntasks; i++ { // reuse the slot of a finished library goroutine
-		if done[i] {
+	for i := dynBase; i < MaxTasks; i++ {
+		if !alive[i] || done[i] {
 			id = i
 			break
 		}
 	}
 	if id < 0 {
-		if ntasks >= MaxTasks {
-			panic("simsched: too many live goroutines started by the library")
-		}
-		id = ntasks
-		ntasks++
+		panic("simsched: too many live goroutines started by the library")
 	}
-	done[id], inY[id] = false, false
+	if id+1 > hi {
+		hi = id + 1
+	}
+	alive[id], done[id], inY[id], waiting[id] = true, false, false, false
 	if dynNext < len(dynPrio) {
 		prio[id] = dynPrio[dynNext]
 	} else {
-		prio[id] = prio[turn] // same priority as the creator: runs when the creator blocks or ends (ties: lower id first)
+		prio[id] = prio[turn] // same priority as the creator: runs when the creator waits or ends (ties: lower id first)
 	}
 	dynNext++
 	dynStarted++
+	progress()
 	return id
 }
 
@@ -502,9 +620,9 @@ func afterSpawn() {
 	handOff(turn, 0) // the new task runs first if the plan gave it the higher priority
 }
 
-func Go0(f func())                                  { spawn(f) }
-func Go1[A any](f func(A), a A)                     { spawn(func() { f(a) }) }
-func Go2[A, B any](f func(A, B), a A, b B)          { spawn(func() { f(a, b) }) }
+func Go0(f func())                                    { spawn(f) }
+func Go1[A any](f func(A), a A)                       { spawn(func() { f(a) }) }
+func Go2[A, B any](f func(A, B), a A, b B)            { spawn(func() { f(a, b) }) }
 func Go3[A, B, C any](f func(A, B, C), a A, b B, c C) { spawn(func() { f(a, b, c) }) }
 func Go4[A, B, C, D any](f func(A, B, C, D), a A, b B, c C, d D) {
 	spawn(func() { f(a, b, c, d) })
@@ -516,17 +634,34 @@ func Go6[A, B, C, D, E, F any](f func(A, B, C, D, E, F), a A, b B, c C, d D, e E
 	spawn(func() { f(a, b, c, d, e, g) })
 }
 
-// WaitAll lets every remaining task (library-started goroutines that outlive
-// the call that started them) run to completion.
+// WaitAll lets the remaining library-started goroutines run until each has
+// finished or all of them wait for work that will not come in this run (a
+// parked worker pool). Called by the harness after its own tasks are done.
 //
 //go:norace
 func WaitAll() {
-	for active && pickNext() >= 0 {
+	for active && !quiet {
+		if n, _ := unfinished(); n == 0 {
+			return
+		}
 		if turn < 0 {
 			turn = pickNext()
 		}
 		runtime.Gosched()
 	}
+}
+
+// Parked reports how many library-started goroutines are still alive (parked).
+//
+//go:norace
+func Parked() int {
+	n := 0
+	for i := dynBase; i < MaxTasks; i++ {
+		if alive[i] && !done[i] {
+			n++
+		}
+	}
+	return n
 }
 
 // WaitGroup replaces sync.WaitGroup in instrumented library code: Wait yields
@@ -541,31 +676,33 @@ type WaitGroup struct {
 func (w *WaitGroup) cnt(d int) int { w.n += d; return w.n }
 
 func (w *WaitGroup) Add(d int) { w.cnt(d); w.real.Add(d) }
-func (w *WaitGroup) Done()     { w.cnt(-1); w.real.Done() }
+func (w *WaitGroup) Done()     { w.cnt(-1); w.real.Done(); wakeAll() }
 func (w *WaitGroup) Wait() {
 	if isActive() {
 		for w.cnt(0) > 0 {
 			spinYield()
 		}
+		spinDone()
 	}
 	w.real.Wait()
 }
 
 // ---------------------------------------------------------------- channels
 // Chan replaces `chan T` in instrumented library code (make, send, receive,
-// close and range are rewritten; select is not supported). While a run is
-// active it is a queue whose blocking operations yield to other tasks; its
-// mutex is a real one, taken around every queue access, so that the race
-// detector sees a happens-before edge from each send to the receives after it
-// (an over-approximation that can hide a race, never invent one).
+// close, range and select are rewritten). While a run is active it is a queue
+// whose blocking operations yield to other tasks; its mutex is a real one, taken
+// around every queue access, so that the race detector sees a happens-before
+// edge from each send to the receives after it (an over-approximation that can
+// hide a race, never invent one).
 type Chan[T any] struct {
-	real   chan T
-	mu     sync.Mutex
-	buf    []T
-	capa   int
-	closed bool
-	sent   uint64
-	taken  uint64
+	real    chan T
+	mu      sync.Mutex
+	buf     []T
+	capa    int
+	closed  bool
+	sent    uint64
+	taken   uint64
+	waiters int // receivers currently waiting (an unbuffered send in a select needs one)
 }
 
 type integer interface {
@@ -576,10 +713,25 @@ func MakeChan[T any, N integer](n N) *Chan[T] {
 	return &Chan[T]{real: make(chan T, int(n)), capa: int(n)}
 }
 
+// wakeAll: something changed that a waiting task may have been waiting for.
+//
+//go:norace
+func wakeAll() {
+	idle = 0
+	for i := 0; i < hi; i++ {
+		waiting[i] = false
+	}
+}
+
 func (c *Chan[T]) Send(v T) {
 	if !isActive() {
 		c.real <- v
 		return
+	}
+	if c == nil {
+		for {
+			spinYield() // a send on a nil channel blocks forever
+		}
 	}
 	for {
 		c.mu.Lock()
@@ -592,6 +744,7 @@ func (c *Chan[T]) Send(v T) {
 			c.sent++
 			my := c.sent
 			c.mu.Unlock()
+			wakeAll()
 			for c.capa == 0 { // unbuffered: wait until a receiver took it
 				c.mu.Lock()
 				done := c.taken >= my
@@ -601,6 +754,7 @@ func (c *Chan[T]) Send(v T) {
 				}
 				spinYield()
 			}
+			spinDone()
 			return
 		}
 		c.mu.Unlock()
@@ -613,19 +767,37 @@ func (c *Chan[T]) Recv2() (T, bool) {
 		v, ok := <-c.real
 		return v, ok
 	}
+	if c == nil {
+		for {
+			spinYield()
+		}
+	}
+	registered := false
 	for {
 		c.mu.Lock()
 		if len(c.buf) > 0 {
 			v := c.buf[0]
 			c.buf = c.buf[1:]
 			c.taken++
+			if registered {
+				c.waiters--
+			}
 			c.mu.Unlock()
+			wakeAll()
 			return v, true
 		}
 		if c.closed {
+			if registered {
+				c.waiters--
+			}
 			c.mu.Unlock()
+			spinDone()
 			var zero T
 			return zero, false
+		}
+		if !registered {
+			c.waiters++
+			registered = true
 		}
 		c.mu.Unlock()
 		spinYield()
@@ -646,4 +818,140 @@ func (c *Chan[T]) Close() {
 	}
 	c.closed = true
 	c.mu.Unlock()
+	wakeAll()
+}
+
+// SelCase is one communication of a rewritten select statement.
+type SelCase interface {
+	ready() bool
+	fire()
+	reflectCase() reflect.SelectCase
+	took(v reflect.Value, ok bool)
+}
+
+type sendCase[T any] struct {
+	c *Chan[T]
+	v T
+}
+
+// SendCase: `case c <- v`.
+func SendCase[T any](c *Chan[T], v T) SelCase { return &sendCase[T]{c, v} }
+
+func (s *sendCase[T]) ready() bool {
+	if s.c == nil {
+		return false
+	}
+	s.c.mu.Lock()
+	defer s.c.mu.Unlock()
+	if s.c.closed {
+		return true // fire panics, as the real send would
+	}
+	if s.c.capa == 0 {
+		return len(s.c.buf) == 0 && s.c.waiters > 0
+	}
+	return len(s.c.buf) < s.c.capa
+}
+func (s *sendCase[T]) fire() {
+	s.c.mu.Lock()
+	if s.c.closed {
+		s.c.mu.Unlock()
+		panic("send on closed channel")
+	}
+	s.c.buf = append(s.c.buf, s.v)
+	s.c.sent++
+	s.c.mu.Unlock()
+}
+func (s *sendCase[T]) reflectCase() reflect.SelectCase {
+	if s.c == nil {
+		return reflect.SelectCase{Dir: reflect.SelectSend, Chan: reflect.ValueOf((chan T)(nil)), Send: reflect.ValueOf(s.v)}
+	}
+	return reflect.SelectCase{Dir: reflect.SelectSend, Chan: reflect.ValueOf(s.c.real), Send: reflect.ValueOf(s.v)}
+}
+func (s *sendCase[T]) took(reflect.Value, bool) {}
+
+// RecvC: `case v, ok := <-c`; V and OK hold what was received.
+type RecvC[T any] struct {
+	c  *Chan[T]
+	V  T
+	OK bool
+}
+
+func RecvCase[T any](c *Chan[T]) *RecvC[T] { return &RecvC[T]{c: c} }
+
+func (r *RecvC[T]) ready() bool {
+	if r.c == nil {
+		return false
+	}
+	r.c.mu.Lock()
+	defer r.c.mu.Unlock()
+	return len(r.c.buf) > 0 || r.c.closed
+}
+func (r *RecvC[T]) fire() {
+	r.c.mu.Lock()
+	if len(r.c.buf) > 0 {
+		r.V, r.OK = r.c.buf[0], true
+		r.c.buf = r.c.buf[1:]
+		r.c.taken++
+	} else {
+		var zero T
+		r.V, r.OK = zero, false
+	}
+	r.c.mu.Unlock()
+}
+func (r *RecvC[T]) reflectCase() reflect.SelectCase {
+	if r.c == nil {
+		return reflect.SelectCase{Dir: reflect.SelectRecv, Chan: reflect.ValueOf((chan T)(nil))}
+	}
+	return reflect.SelectCase{Dir: reflect.SelectRecv, Chan: reflect.ValueOf(r.c.real)}
+}
+func (r *RecvC[T]) took(v reflect.Value, ok bool) {
+	if ok {
+		r.V = v.Interface().(T)
+	}
+	r.OK = ok
+}
+
+// Select replaces a select statement: it returns the index of the case that
+// fired, or -1 for the default case. Which ready case is taken is decided by the
+// yield ordinal, i.e. by the plan, never by a random source.
+func Select(hasDefault bool, cases ...SelCase) int {
+	if !isActive() {
+		rc := make([]reflect.SelectCase, 0, len(cases)+1)
+		for _, c := range cases {
+			rc = append(rc, c.reflectCase())
+		}
+		if hasDefault {
+			rc = append(rc, reflect.SelectCase{Dir: reflect.SelectDefault})
+		}
+		i, v, ok := reflect.Select(rc)
+		if i == len(cases) {
+			return -1
+		}
+		cases[i].took(v, ok)
+		return i
+	}
+	for {
+		n := len(cases)
+		start := selStart(n)
+		for d := 0; d < n; d++ {
+			i := (start + d) % n
+			if cases[i].ready() {
+				cases[i].fire()
+				wakeAll()
+				return i
+			}
+		}
+		if hasDefault {
+			return -1
+		}
+		spinYield()
+	}
+}
+
+//go:norace
+func selStart(n int) int {
+	if n == 0 {
+		return 0
+	}
+	return int(ord % uint64(n))
 }
